@@ -2,7 +2,7 @@ CONFIG = dict(
     coqfiles=["Props/C03.v"],
     n_quick=320, n_thorough=100000, workers_quick=8,
     rule="persistent local store wired as new_blob_access.go (block size 32-64, sector 1/4/16, old 1-2, current 1-2, new 1-3, spare 1-2, immutable or mutable growth policy, flat or hierarchical, "
-         "raw (70%) or CAS-validating read factory, in-memory or directory-backed state store, intervals 0/4/10, 60% with injected sync/state-write failures) x 2-3 (thorough -4) incarnations of "
+         "raw (70%) or CAS-validating read factory, in-memory or directory-backed state store (the latter also with failing rename / fsync of state.new), intervals 0/4/10, 60% with injected sync/state-write failures) x 2-3 (thorough -4) incarnations of "
          "3-30 scheduled steps over {upload start/chunk/end through a gated source in 4 slots, Get, FindMissing, DataSyncer / state-write completion ok/fail, clock, timer expiry, cancel, "
          "drive-to-exit, drive-to-idle}; every incarnation ends with a process exit (graceful iff ProcessBlockPut returned) keeping the three media, the next one reads back every key; "
          "75% random structured (traffic, then shutdown with the final commit's steps interleaved with uploads / commit then crash / crash anywhere), 25% sweeps: one base scenario per 24 cases "
